@@ -153,13 +153,55 @@ fn execute(sc: &Scenario, st: &mut RunStats) -> Vec<Violation> {
         } else {
             st.probe("unseeded_run");
         }
-        if run.failing.is_some() {
+        // a stream that is healthy except for ONE degenerate read still differs from every other
+        // such stream (different seeds): proofs made with them are "made with different randomness"
+        // and stay in the ledger; wholly degenerate streams are only checked within the proof
+        let partly = matches!(run.failing, Some(RngMode::ZeroBlockAt(..)) | Some(RngMode::RepeatBlockAt(..)));
+        if partly {
+            st.probe("one_degenerate_read_in_otherwise_different_streams");
+        }
+        if run.failing.is_some() && !partly {
             st.probe("within_proof_oracles_under_failing_rng");
             continue;
+        }
+        // With one degenerate read at position p, the nonces drawn from the transcript-RNG instance
+        // that was finalised with exactly that external block may legitimately coincide with another
+        // run's; every other nonce — in particular one drawn from an instance that consumed NO
+        // fresh external block — must still differ. Which instance a nonce came from, and which
+        // external block that instance consumed, is read off the tap and the simulator's RNG log.
+        let mut exempt: Vec<[u8; 32]> = Vec::new();
+        if let Some(RngMode::ZeroBlockAt(p, _)) = &run.failing {
+            let served: Vec<&[u8]> = obs.served.chunks(32).collect();
+            let mut next_read = 0usize;
+            let mut current: Option<usize> = None; // external read index consumed by the current instance
+            for e in &obs.view.events {
+                match e {
+                    merlin::tap::Event::RngFinalize { ext, .. } => {
+                        if next_read < served.len() && served[next_read] == &ext[..] {
+                            current = Some(next_read);
+                            next_read += 1;
+                        } else {
+                            current = None;
+                        }
+                    },
+                    merlin::tap::Event::RngOutput { out: o, .. } => {
+                        if current == Some(*p - 1) {
+                            if let Some(sv) = challenge_scalar(o) {
+                                exempt.push(sv.to_bytes());
+                            }
+                        }
+                    },
+                    _ => {},
+                }
+            }
+            st.probe_n("nonces_exempt_because_drawn_after_the_degenerate_read", exempt.len() as u64);
         }
         // across the history: RNG-derived nonces never repeat between runs with different streams
         for (n, v) in obs.nonces.rng_derived(seeded) {
             let kb = v.to_bytes();
+            if exempt.contains(&kb) {
+                continue;
+            }
             if let Some((h0, n0, s0)) = ledger.get(&kb) {
                 if *s0 != run.stream {
                     let same_subject = sc.history[*h0].subject == run.subject && sc.history[*h0].ctx == run.ctx;
@@ -250,7 +292,7 @@ impl Check for C13 {
         }
         let ctxs: Vec<Context> = (0..rng.range(1, 2)).map(|_| Context::generate(rng)).collect();
         let n_hist = rng.range(12, if tier == Tier::Quick { 60 } else { 120 }) as usize;
-        let history = (0..n_hist)
+        let mut history: Vec<ProverRun> = (0..n_hist)
             .map(|_| ProverRun {
                 subject: rng.usize_below(n_subj),
                 ctx: rng.usize_below(ctxs.len()),
@@ -258,6 +300,24 @@ impl Check for C13 {
                 failing: if rng.chance(1, 6) { Some(crate::checks::c01::gen_rng_mode(rng, false)) } else { None },
             })
             .collect();
+        // campaign: the same statement and context proved several times with streams that differ
+        // everywhere except for one degenerate read at a fixed position
+        if rng.chance(1, 2) {
+            let subject = rng.usize_below(n_subj);
+            let ctx = rng.usize_below(ctxs.len());
+            let pos = rng.range(1, 5) as usize;
+            let zero = rng.chance(1, 2);
+            for _ in 0..rng.range(2, 4) {
+                let seed = rng.next_u64();
+                let at = rng.usize_below(history.len() + 1);
+                history.insert(at, ProverRun {
+                    subject,
+                    ctx,
+                    stream: seed,
+                    failing: Some(if zero || pos < 2 { RngMode::ZeroBlockAt(pos, seed) } else { RngMode::RepeatBlockAt(pos, seed) }),
+                });
+            }
+        }
         Scenario { subjects, ctxs, history }
     }
 
@@ -305,6 +365,7 @@ impl Check for C13 {
         vec![
             "seeded_run", "unseeded_run", "same_statement_reproved_under_other_stream", "same_seed_other_statement",
             "within_proof_oracles_under_failing_rng",
+            "one_degenerate_read_in_otherwise_different_streams",
         ]
     }
 }
